@@ -336,8 +336,19 @@ func (r Result) Diff() int {
 	return -1
 }
 
+// HostPanic returns the index of the first run that panicked into the host, or -1. Generated code
+// never does on purpose: a run and its oracle that panic alike compare equal and test nothing.
+func (r Result) HostPanic() int {
+	for i := range r.Got {
+		if r.Got[i].Panic != "" {
+			return i
+		}
+	}
+	return -1
+}
+
 // Bad reports whether the case fails.
-func (r Result) Bad() bool { return r.Hang || r.Diff() >= 0 || r.HostBad != "" }
+func (r Result) Bad() bool { return r.Hang || r.Diff() >= 0 || r.HostBad != "" || r.HostPanic() >= 0 }
 
 // Run builds c once, makes its runs (concurrently with start jitter, or sequentially) and
 // computes the oracle for every input from fresh builds.
